@@ -399,3 +399,52 @@ Fixpoint merge2 (a : list arow) : list arow -> list arow :=
     | x :: a', y :: b' => if arow_leb x y then x :: merge2 a' b else y :: inner b'
     end.
 Definition merge_k (ls : list (list arow)) : list arow := fold_right merge2 [] ls.
+
+(* ------------------------------------------------------------------------------------------------ *)
+(* Operator-level view of one group: the fill machine over the chunks of the group's bucket rows, then the tail.
+   Descending streams use a negative interval: first is the highest bucket, last the lowest. *)
+Definition fill_group_chunks (i first last : Z) (m : fillmode) (aggs : list aggcol) (chunks : list (list arow)) : list arow :=
+  let '(st, out) := run_chunks (fill_step i m aggs) (first, null_cells aggs) chunks in
+  out ++ fill_finish i last m aggs st.
+
+(* -- `_current` variants: today's FillTransform where it departs from the machine above (see NOTES, findings) *)
+
+(* (1) fast path of FillTransform.fill: fill(null), no dimensions, the FIRST chunk holds as many rows as the range has
+   windows -> the chunk is forwarded untouched (the 0 for a null count() cell is not substituted). *)
+Definition fill_group_chunks_fast_current (i first last : Z) (m : fillmode) (aggs : list aggcol)
+           (chunks : list (list arow)) : list arow :=
+  match m, chunks with
+  | FillNull, c :: rest =>
+      if (Z.of_nat (length c) =? (last - first) / i + 1) then c ++ concat rest
+      else fill_group_chunks i first last m aggs chunks
+  | _, _ => fill_group_chunks i first last m aggs chunks
+  end.
+
+(* (2) fill(previous) bookkeeping: the value filled into a gap is the cell of the ROW just before the gap
+   (prevReadAts = intervalIndex-1), null if that row is null in the column, instead of the last value seen *)
+Fixpoint fill_cells_lastrow (aggs : list aggcol) (prev cells : list cell) : list cell * list cell :=
+  match aggs, prev, cells with
+  | _ :: aggs', p :: prev', c :: cells' =>
+      let '(out, prev2) := fill_cells_lastrow aggs' prev' cells' in
+      if is_null c then (p :: out, c :: prev2) else (c :: out, c :: prev2)
+  | _, _, _ => ([], [])
+  end.
+Fixpoint fill_rows_lastrow (aggs : list aggcol) (prev : list cell) (rows : list arow) : list arow :=
+  match rows with
+  | [] => []
+  | (t, cs) :: r => let '(out, prev2) := fill_cells_lastrow aggs prev cs in (t, out) :: fill_rows_lastrow aggs prev2 r
+  end.
+
+(* (3) split path of a descending query (computeGroup): a group of [size] windows is re-cut into
+   n = ceil(size/cs) sub-chunks; window offsets count from the first (highest) window of the group.
+   current:  sub-chunk j holds the offsets of [st - j*cs, st - (j-1)*cs), i.e. 0 for j = 0 and (j-1)*cs+1 .. j*cs;
+   repaired: sub-chunk j holds j*cs .. (j+1)*cs-1. *)
+Definition subchunks (size cs : nat) : nat := (size + cs - 1) / cs.
+Definition in_subchunk_current (cs j k : nat) : bool :=
+  match j with
+  | O => Nat.eqb k 0
+  | Datatypes.S j' => Nat.ltb (j' * cs) k && Nat.leb k (j * cs)
+  end.
+Definition in_subchunk_repaired (cs j k : nat) : bool := Nat.leb (j * cs) k && Nat.ltb k ((j + 1) * cs).
+Definition covered (inw : nat -> nat -> nat -> bool) (size cs k : nat) : bool :=
+  existsb (fun j => inw cs j k) (seq 0 (subchunks size cs)).
